@@ -53,6 +53,18 @@ def gen(rnd, tier):
         cases.append(D.stream_case([("runes", [r])], tag="scalar"))
         cases.append(D.stream_case([("altrune", r), ("ctl", 13, False)], tag="scalar"))
         cases.append(D.stream_case([("runes", [97, r, 98, r])], tag="scalar"))
+    # alt + a letter that also introduces a control function (SS3 O, CSI [, SS2 N, DCS P, OSC ], PM ^, APC _, SOS X), followed
+    # by every printable byte: unless the three bytes are a documented sequence, this is alt+letter and then that byte
+    for c1 in b"O[NP]^_X":
+        seconds = list(range(0x20, 0x7f))
+        if tier == "quick" and c1 not in b"O[":
+            seconds = rnd.sample(seconds, 12)
+        for c2 in seconds:
+            e = ("altrune", c1)
+            follow = ("runes", [c2]) if c2 != 0x20 else ("space", False)
+            if D.clean(e, D.encode(follow)):
+                cases.append(D.stream_case([e, follow], tag="alt-introducer"))
+                cases.append(D.stream_case([("runes", [97]), e, follow, ("key", 0, False)], tag="alt-introducer"))
     # random well-formed streams read together
     n = 500 if tier == "quick" else 20000
     for _ in range(n):
